@@ -222,3 +222,44 @@ def run(fb, rep, tier, cfg):
     r10a(fb, rep)
     r10b(fb, rep)
     r10c(fb, rep)
+    r10d(fb, rep)
+
+
+def r10d(fb, rep):
+    """R10d — only closures stop the pinning walk.  `DepGraph` pins an effectful call to its enclosing *expression* bindings up to
+    the nearest `BindType::Closure` scope (a closure's body runs when it is called, not where it is bound).  Rule: in
+    `DepGraph::visit_expr` the scope entered for a `Named::Expr` binding always carries the constant `BindType::Expr`; only the
+    `Named::Recursive` arm (closures) enters `BindType::Closure` scopes.  A `Named::Expr` binding classified as a closure — for
+    instance because its value *starts* with a local function definition — is never pinned, and `let _ = <block with a call>`
+    is dropped together with its host calls."""
+    R = "R10d"
+    rep.rule(R, "expression bindings are entered as BindType::Expr scopes; only closures stop the pinning walk")
+    b = fb.body("<gluon_vm::core::dead_code::DepGraph<'e> as gluon_vm::core::optimize::Visitor<'e, 'e>>::visit_expr")
+    if b is None:
+        rep.anchor_lost(R, "DepGraph's Visitor::visit_expr")
+        return
+    NAMED = "gluon_vm::core::Named"
+    BT = "gluon_vm::core::dead_code::BindType"
+    ei, ri = variant_index(fb, NAMED, "Expr"), variant_index(fb, NAMED, "Recursive")
+    sw = [(i, m, o) for i, m, o in enum_switches(b, NAMED)]
+    if ei is None or ri is None or not sw:
+        rep.anchor_lost(R, "match on core::Named in DepGraph::visit_expr")
+        return
+    n = 0
+    for sw_bb, m, other in sw:
+        te, tr = m.get(ei, other), m.get(ri, other)
+        if te is None or tr is None or te == tr:
+            continue
+        region = b.reachable(te, avoid_blocks=[sw_bb]) - b.reachable(tr, avoid_blocks=[sw_bb])
+        for c in b.calls():
+            if c.bb in region and (c.res.endswith("DepGraph::<'a>::scope") or c.res.endswith("DepGraph::<'a>::scope_idx")) and len(c.args) >= 3:
+                n += 1
+                src = flow.sources(b, c.args[2], depth=10)
+                kinds = {s[2] for s in src if s[0] == "agg" and len(s) >= 3 and s[1] == BT}
+                other_src = [s for s in src if s[0] in ("call", "arg", "field")]
+                if kinds == {"Expr"} and not other_src:
+                    rep.ok(R, "visit_expr: a Named::Expr binding is entered as a BindType::Expr scope")
+                else:
+                    rep.violation(R, "expr-binding-entered-as-%s" % ("closure" if "Closure" in kinds else "computed-kind"), "DepGraph::visit_expr enters the scope of a Named::Expr binding with a bind type that is "
+                                  "not the constant BindType::Expr (%s): calls inside such a binding are not pinned and dead-code elimination may drop them" % (sorted(kinds) or "computed"), c.where())
+    rep.floor(R, "scopes entered for Named::Expr bindings", n, 1)
